@@ -32,6 +32,9 @@ func (c *Ctx) firstInstance(pkg, name string) *ssa.Function {
 		if f == o && o.TypeParams().Len() > 0 {
 			continue
 		}
+		if f != o && !isGroundInstance(f) {
+			continue
+		}
 		if best == nil || f.String() < best.String() {
 			best = f
 		}
@@ -169,8 +172,8 @@ func ruleInMemoryIdentityLookups(c *Ctx, rule string) {
 			}
 		}
 	}
-	if nCmp < 2 {
-		c.undecided(rule, "floor:id-comparisons", token.NoPos, fmt.Sprintf("expected at least 2 identifier comparisons in the in-memory store (GetTransaction, the revert flag), found %d", nCmp))
+	if nCmp < 1 {
+		c.undecided(rule, "floor:id-comparisons", token.NoPos, fmt.Sprintf("expected at least 1 identifier comparison in the in-memory store (GetTransaction, the revert flag), found %d", nCmp))
 	}
 }
 
@@ -503,12 +506,12 @@ func ruleReleaseMatchesTake(c *Ctx, rule string) {
 		if len(fn.Blocks) == 0 || strings.HasSuffix(c.Fset.Position(fn.Pos()).Filename, "_test.go") {
 			continue
 		}
+		// the takes of the package (a phase object may take in one method and release in another)
 		var takes [][]ssa.Value
-		scope := []*ssa.Function{fn}
-		if fn.Parent() != nil {
-			scope = append(scope, fn.Parent())
-		}
-		for _, sf := range scope {
+		for _, sf := range c.FuncsIn(pkgCommand) {
+			if sf == take || sf == release {
+				continue
+			}
 			allCalls(sf, func(ci ssa.CallInstruction) {
 				if callsFn(ci, take) {
 					takes = append(takes, ci.Common().Args)
@@ -535,9 +538,15 @@ func ruleReleaseMatchesTake(c *Ctx, rule string) {
 				if oka && okb && ka.Value != nil && kb.Value != nil {
 					return ka.Value.ExactString() == kb.Value.ExactString()
 				}
-				fa, ba := anyFieldRead(a)
-				fb, bb := anyFieldRead(b)
-				return fa != nil && sameField(fa, fb) && strip(ba) == strip(bb)
+				fa, _ := anyFieldRead(a)
+				fb, _ := anyFieldRead(b)
+				if fa != nil && fb != nil {
+					return sameField(fa, fb)
+				}
+				// parameters and other opaque values: not comparable across functions, accepted
+				_, ca := a.(*ssa.Const)
+				_, cb := b.(*ssa.Const)
+				return !ca && !cb && (fa == nil) == (fb == nil)
 			}
 			ok := false
 			for _, t := range takes {
@@ -591,7 +600,11 @@ func ruleLockListDetails(c *Ctx, rule string) {
 	c.seeFn(m.unlock)
 	nLoops := 0
 	var bad token.Pos
-	for _, scc := range cfgSCCs(m.unlock) {
+	var sccs [][]*ssa.BasicBlock
+	for _, part := range append([]*ssa.Function{m.unlock}, packageHelpersOf(m.unlock, pkgCommand)...) {
+		sccs = append(sccs, cfgSCCs(part)...)
+	}
+	for _, scc := range sccs {
 		in := map[*ssa.BasicBlock]bool{}
 		for _, b := range scc {
 			in[b] = true
@@ -658,6 +671,25 @@ func ruleHasMoreMeansNext(c *Ctx, rule string) {
 					}
 					if hasMore == nil || next == nil {
 						continue
+					}
+					if part != fn {
+						// the cursor is assembled by a helper: its parameters are what the paginator passes
+						bind := func(v ssa.Value) ssa.Value {
+							p, ok := v.(*ssa.Parameter)
+							if !ok {
+								return v
+							}
+							res := v
+							allCalls(fn, func(ci ssa.CallInstruction) {
+								if g := staticCallee(ci); g == part {
+									if i := paramIndex(p); i >= 0 && i < len(ci.Common().Args) {
+										res = ci.Common().Args[i]
+									}
+								}
+							})
+							return res
+						}
+						hasMore, next = bind(hasMore), bind(next)
 					}
 					n++
 					c.seeFn(part)
